@@ -37,7 +37,7 @@ use poulpy_cpu_avx::{FFT64Avx, NTT120Avx};
 use poulpy_cpu_ref::{FFT64Ref, NTT120Ref};
 use poulpy_hal::{
     api::{
-        ModuleNew, ScratchOwnedAlloc, ScratchOwnedBorrow, VecZnxAddNormal, VecZnxAddScalarAssign, VecZnxAutomorphism, VecZnxFillUniform,
+        ModuleNew, ScratchOwnedAlloc, ScratchOwnedBorrow, VecZnxAddNormal, VecZnxAddScalarAssign, VecZnxAutomorphism, VecZnxFillUniform, VecZnxSwitchRing,
         VecZnxNormalizeAssign,
     },
     layouts::{GaloisElement, Module, NoiseInfos, ReaderFrom, ScalarZnx, ScratchOwned, VecZnx, WriterTo, ZnxInfos, ZnxView, ZnxViewMut},
@@ -124,18 +124,41 @@ macro_rules! cmp_backend {
             let mut src_s = Source::new(seed32(sxs));
             let mut sk = GLWESecret::alloc(deg, Rank(rank as u32));
             fill_glwe_secret(&mut sk, dist, &mut src_s);
-            let mut sk_in = GLWESecret::alloc(deg, Rank(rank_in as u32));
-            fill_glwe_secret(&mut sk_in, dist, &mut src_s);
             let mut src_r = Source::new(seed32(sxs));
             let sk_vis = replay_secret(n, rank, dist, &mut src_r);
-            let sk_in_vis = replay_secret(n, rank_in, dist, &mut src_r);
             let mut skp = module.glwe_secret_prepared_alloc(Rank(rank as u32));
             module.glwe_secret_prepare(&mut skp, &sk);
 
-            // the secret the cells are encrypted under: sk, or its image under X -> X^(p^-1) for the automorphism key
+            // switching keys: the two secrets may live in a ring of SMALLER degree than the module (`nin=`, `nout=`, powers of two
+            // dividing n; the API asserts only `<=`); the routines embed them with vec_znx_switch_ring (X -> X^(n/deg))
+            let nin = if kv(t, "nin").is_some() { kv_us(t, "nin") } else { n };
+            let nout = if kv(t, "nout").is_some() { kv_us(t, "nout") } else { n };
+            let mut ksk_in = GLWESecret::alloc(Degree(nin as u32), Rank(rank_in as u32));
+            fill_glwe_secret(&mut ksk_in, dist, &mut Source::new(seed32(sxs ^ 0x3333)));
+            let ksk_in_vis = replay_secret(nin, rank_in, dist, &mut Source::new(seed32(sxs ^ 0x3333)));
+            let mut ksk_out = GLWESecret::alloc(Degree(nout as u32), Rank(rank as u32));
+            fill_glwe_secret(&mut ksk_out, dist, &mut Source::new(seed32(sxs ^ 0x4444)));
+            let ksk_out_vis = replay_secret(nout, rank, dist, &mut Source::new(seed32(sxs ^ 0x4444)));
+            let mut skp_ksk = module.glwe_secret_prepared_alloc(Rank(rank as u32));
+            if nout == n {
+                module.glwe_secret_prepare(&mut skp_ksk, &ksk_out);
+            }
+            let mut ksk_in_emb = ScalarZnx::alloc(n, rank_in.max(1));
+            for i in 0..rank_in {
+                module.vec_znx_switch_ring(&mut ksk_in_emb.as_vec_znx_mut(), i, &ksk_in_vis.as_vec_znx(), i);
+            }
+            let mut ksk_out_emb = ScalarZnx::alloc(n, rank.max(1));
+            for i in 0..rank {
+                module.vec_znx_switch_ring(&mut ksk_out_emb.as_vec_znx_mut(), i, &ksk_out_vis.as_vec_znx(), i);
+            }
+
+            // the secret the cells are encrypted under: sk, its image under X -> X^(p^-1) for the automorphism key, the embedded
+            // output secret for the switching key
             let mut sk_dec = ScalarZnx::alloc(n, rank.max(1));
             for i in 0..rank {
-                if op == "atk" {
+                if op == "ksk" {
+                    sk_dec.at_mut(i, 0).copy_from_slice(ksk_out_emb.at(i, 0));
+                } else if op == "atk" {
                     module.vec_znx_automorphism(module.galois_element_inv(p), &mut sk_dec.as_vec_znx_mut(), i, &sk_vis.as_vec_znx(), i);
                 } else {
                     sk_dec.at_mut(i, 0).copy_from_slice(sk_vis.at(i, 0));
@@ -235,6 +258,7 @@ macro_rules! cmp_backend {
                     let mut xe_s = Source::new(seed32(sxe));
                     let mut xa_s = Source::new(seed32(sxa ^ 0x5555));
                     let mut wrappers = 0;
+                    let mut degrees_ok = true;
                     match op {
                         "gglwe" => {
                             let mut c = GGLWECompressed::alloc_from_infos(&gglwe_layout);
@@ -252,17 +276,30 @@ macro_rules! cmp_backend {
                         }
                         "ksk" => {
                             let mut c = GLWESwitchingKeyCompressed::alloc_from_infos(&gglwe_layout);
-                            module.glwe_switching_key_compressed_encrypt_sk(&mut c, &sk_in, &sk, seed32(sxa), &enc, &mut xe_c, scratch.borrow());
+                            module.glwe_switching_key_compressed_encrypt_sk(&mut c, &ksk_in, &ksk_out, seed32(sxa), &enc, &mut xe_c, scratch.borrow());
                             let mut d = GLWESwitchingKey::alloc_from_infos(&gglwe_layout);
                             module.decompress_glwe_switching_key(&mut d, &c);
                             let mut s = GLWESwitchingKey::alloc_from_infos(&gglwe_layout);
-                            module.glwe_switching_key_encrypt_sk(&mut s, &sk_in, &sk, &enc, &mut xe_s, &mut xa_s, scratch.borrow());
+                            module.glwe_switching_key_encrypt_sk(&mut s, &ksk_in, &ksk_out, &enc, &mut xe_s, &mut xa_s, scratch.borrow());
                             let bytes = ser(&c);
                             let mut c2 = GLWESwitchingKeyCompressed::alloc_from_infos(&gglwe_layout);
                             c2.read_from(&mut &bytes[..]).unwrap();
                             let mut d2 = GLWESwitchingKey::alloc_from_infos(&gglwe_layout);
                             module.decompress_glwe_switching_key(&mut d2, &c2);
                             let mut ok = ser(&c2) == bytes && ser(&d2) == ser(&d);
+                            // the two degree fields: recorded by the compressed and the standard routine, carried by decompression and by
+                            // the serialisation round trip
+                            {
+                                use poulpy_core::layouts::GLWESwitchingKeyDegrees;
+                                let want = (nin as u32, nout as u32);
+                                let degs = |i: &Degree, o: &Degree| (i.0, o.0);
+                                degrees_ok = degs(c.input_degree(), c.output_degree()) == want
+                                    && degs(d.input_degree(), d.output_degree()) == want
+                                    && degs(s.input_degree(), s.output_degree()) == want
+                                    && degs(c2.input_degree(), c2.output_degree()) == want
+                                    && degs(d2.input_degree(), d2.output_degree()) == want;
+                                ok &= degrees_ok;
+                            }
                             // the LWE-related wrappers (no producing routine of their own): the same bytes read into the compressed wrapper
                             // the shape admits must re-serialise identically; the wrapper's decompression trait (whose `other` bound —
                             // GLWESwitchingKeyDegrees — the compressed wrappers themselves do not implement, so it is fed the
@@ -372,9 +409,11 @@ macro_rules! cmp_backend {
                     let model_op = matches!(op, "gglwe" | "ksk" | "tsk");
                     let cell_pt: Option<&ScalarZnx<Vec<u8>>> = match op {
                         "gglwe" => Some(&pt),
-                        "ksk" => Some(&sk_in_vis),
+                        "ksk" => Some(&ksk_in_emb),
                         _ => None,
                     };
+                    // per-cell byte comparison with glwe_encrypt_sk needs the prepared secret, which only exists for degree n
+                    let cellenc_ok = op != "ksk" || nout == n;
                     for (d, s, seeds, ok) in subs.iter() {
                         sok &= *ok;
                         let rin = seeds.len() / dnum.max(1);
@@ -415,13 +454,13 @@ macro_rules! cmp_backend {
                             let mut xe3 = Source::new(seed32(sxe));
                             for col in 0..rin {
                                 for row in 0..dnum {
-                                    if let Some(cpt) = cell_pt {
+                                    if let (Some(cpt), true) = (cell_pt, cellenc_ok) {
                                         let mut tmp_pt = GLWEPlaintext::alloc(deg, bk, tk);
                                         module.vec_znx_add_scalar_assign(tmp_pt.data_mut(), 0, (dsize - 1) + row * dsize, cpt, col);
                                         module.vec_znx_normalize_assign(b, tmp_pt.data_mut(), 0, scratch.borrow());
                                         let mut st = GLWE::alloc_from_infos(&glwe_layout);
                                         let mut xa2 = Source::new(seeds[row * rin + col]);
-                                        module.glwe_encrypt_sk(&mut st, &tmp_pt, &skp, &enc, &mut xe2, &mut xa2, scratch.borrow());
+                                        module.glwe_encrypt_sk(&mut st, &tmp_pt, if op == "ksk" { &skp_ksk } else { &skp }, &enc, &mut xe2, &mut xa2, scratch.borrow());
                                         ne += (st.data().raw() == d.at(row, col).data().raw()) as i32;
                                     }
                                     let mut ev = VecZnx::alloc(n, 1, size);
@@ -429,13 +468,13 @@ macro_rules! cmp_backend {
                                     errs.push(show_vec(&ev));
                                 }
                             }
-                            if cell_pt.is_none() {
+                            if cell_pt.is_none() || !cellenc_ok {
                                 ne = -1;
                             }
                             tail = format!(
                                 " sk={} pt={} top={} seeds={} child={} e={} obj={}",
-                                show_scalar(&sk_vis),
-                                cell_pt.map(show_scalar).unwrap_or("-".to_string()),
+                                if op == "ksk" { show_scalar(&ksk_out_vis) } else { show_scalar(&sk_vis) },
+                                if op == "ksk" { show_scalar(&ksk_in_vis) } else { cell_pt.map(show_scalar).unwrap_or("-".to_string()) },
                                 show_words(&words(&mut Source::new(seed32(sxa)), 4 * rin * dnum)),
                                 all_seeds.join(";"),
                                 all_child.join(";"),
@@ -446,7 +485,7 @@ macro_rules! cmp_backend {
                             ne = -1;
                         }
                     }
-                    tail += &format!(" wrappers={wrappers}");
+                    tail += &format!(" wrappers={wrappers} degrees={}", degrees_ok as i32);
                     cells = nc;
                     masks = nm;
                     dec = nd;
